@@ -124,7 +124,7 @@ def harness_for(tpl, trait, val_ty, ctor, fn="same_as_format"):
         trace_reset();
         let mut want = Sink::new();
 %(oracle)s        let tw = trace_take();
-        assert!(!got.overflow && !want.overflow);
+        assert!(!got.overflow && !want.overflow, "HARNESS: sink too small");
         assert!(got.same(&want), "derived output differs from write!(literal, args)");
         assert!(tg == tw, "fields were formatted in a different order, under a different trait or with different options than write!(literal, args) does");
         kani::cover!(got.len >= 1, "reach non-empty output");
@@ -230,7 +230,7 @@ def shapes(tier):
         }
         let tw = trace_take();
         let (got, tg) = run_fmt!(%(T)s, &s, FormattingOptions::new());
-        assert!(!got.overflow && !want.overflow);
+        assert!(!got.overflow && !want.overflow, "HARNESS: sink too small");
         assert!(got.same(&want), "derived output differs from write!(literal, args) for this variant");
         assert!(tg == tw, "fields were formatted differently than write!(literal, args) does");
         kani::cover!(matches!(s, S::D { .. }), "reach D");
